@@ -8,20 +8,27 @@
   reference: key ↦ (present, flags, version list), a stack of marks, len/size defined by counting.
   `abs` reads a `Spec` off a `VLog`; `Inv` is the representation invariant (links well formed, counters exact, …).
 
-  Two further layers are modelled and proved:
+  Three further layers are modelled and proved:
   * the ORDERED-MAP layer: the key order is a strict total order and every iterator answer (plain / reverse / with flag-only
     keys / snapshot) is exactly the in-range part of the map in strictly ascending (descending) key order, for every call
     sequence (`iter_is_sorted_filter`, `snapIter_is_sorted_filter`, `key_order_strict_total`);
   * the NODE-CONTAINER layer of the radix tree (Model/ArtNode.lean ↔ art_node.go node4/16/48/256: findChild, addChild with
     growth, replaceChild, iteration order), driven directly in the differential through the `n*` ops
-    (`artnode_insert_lookup`, `artnode_addChild`, `artnode_replaceChild`).
-  STILL tied to the reference only by the differential (harness/c08): the PATH logic of the radix tree (recursiveInsert /
-  search / expandLeafIfNeeded / expandNode: prefix compression, the 20-byte in-node prefix with optimistic matching, in-place
-  leaves, lazy expansion), iterator seek with bounds inside the tree, the whole red-black tree (rotations, recolouring), the
-  arena's block arithmetic, the node allocator and its free lists.
+    (`artnode_insert_lookup`, `artnode_addChild`, `artnode_replaceChild`);
+  * the PATH logic of the radix tree (Model/ArtTree.lean ↔ art.go search / recursiveInsert / expandLeafIfNeeded / expandNode,
+    art_node.go match / matchDeep / setPrefix / minimumLeafNode, full in-order traversal): compressed prefixes with the
+    bounded in-node part and optimistic matching, in-place leaves, prefix split, leaf expansion — tied by a STRUCTURE
+    differential (`tdump`: the real tree is dumped node by node and compared with the model's dump after writes), proved in
+    `art_tree_inserts`, `art_insert_search`, `art_kids_as_container`.
+  STILL tied to the reference only by the differential (harness/c08): iterator seek with bounds inside the radix tree
+  (`baseIter.seek`, the end-address logic of `Iterator.init`) and its lastTraversedNode cache; the whole red-black tree (no model of
+  its insertion / rotations — its invariants root-black, no red-red, equal black height, BST order, parent links are CHECKED on
+  the real tree by the property op `rbtchk`, and its in-order key sequence is compared with the model's key set); the arena's
+  block arithmetic, the node allocator and its free lists.
 -/
 import ClientGoVerif.Proofs.MemBufOrder
 import ClientGoVerif.Proofs.ArtNode
+import ClientGoVerif.Proofs.ArtTreeTop
 namespace CGV.Props.C08
 open CGV CGV.MemBuf
 
@@ -376,10 +383,67 @@ theorem artnode_replaceChild {χ : Type} (n : ArtNode.Node χ) (hw : n.WF) (c : 
       ∀ c', n'.findChild c' = (if c' = c then some x else n.findChild c')) :=
   ArtNode.replaceChild_spec n hw c x
 
+/-! ## the path logic of the radix tree (search / recursiveInsert / expandLeafIfNeeded / expandNode / matchDeep) -/
+
+/-- For EVERY sequence of inserts of arbitrary byte-string keys (keys that are prefixes of one another, the empty key, common
+    prefixes longer than the in-node bound, repeated keys): the resulting tree satisfies the structural invariant `WFT`
+    (every inner node's compressed prefix has the recorded length, its in-node bytes are the first `maxInNodePrefixLen` of it,
+    the in-place leaf is the key that ends at the node, children are ordered by byte and each subtree lies on its own byte
+    path), `search` finds exactly the inserted keys and returns the leaf of the key itself, and the in-order traversal yields
+    exactly the inserted keys in strictly ascending byte order (the reverse traversal in strictly descending order). -/
+theorem art_tree_inserts (ks : List Bytes) :
+    ArtTree.WFT [] (ArtTree.insertAll ks) ∧
+    (∀ k, ArtTree.search (ArtTree.insertAll ks) k = (if k ∈ ks then some k else none)) ∧
+    (∀ k, k ∈ ArtTree.keys (ArtTree.insertAll ks) ↔ k ∈ ks) ∧
+    (ArtTree.keys (ArtTree.insertAll ks)).Pairwise (fun a b => Bytes.lt a b = true) ∧
+    (ArtTree.keys (ArtTree.insertAll ks)).reverse.Pairwise (fun a b => Bytes.lt b a = true) := by
+  obtain ⟨h1, h2, h3⟩ := ArtTree.insertAll_spec ks
+  refine ⟨h1, fun k => ?_, h2, h3, List.pairwise_reverse.mpr h3⟩
+  rw [ArtTree.search_spec _ h1 k]
+  by_cases hk : k ∈ ks
+  · rw [if_pos ((h2 k).mpr hk), if_pos hk]
+  · rw [if_neg (fun h => hk ((h2 k).mp h)), if_neg hk]
+
+/-- one insert on any well-formed tree: the inserted key is found (as itself), the answer for every other key is unchanged,
+    the invariant is kept, and the key set grows by exactly that key -/
+theorem art_insert_search (t : ArtTree.Tree) (h : ArtTree.WFT [] t) (k k' : Bytes) :
+    ArtTree.WFT [] (ArtTree.insert t k) ∧
+    ArtTree.search (ArtTree.insert t k) k' = (if k' = k then some k else ArtTree.search t k') ∧
+    (∀ x, x ∈ ArtTree.keys (ArtTree.insert t k) ↔ (x = k ∨ x ∈ ArtTree.keys t)) := by
+  obtain ⟨h1, h2⟩ := ArtTree.insert_spec t h k
+  refine ⟨h1, ?_, h2⟩
+  rw [ArtTree.search_spec _ h1 k', ArtTree.search_spec _ h k']
+  by_cases e : k' = k
+  · subst e
+    rw [if_pos ((h2 k').mpr (Or.inl rfl)), if_pos rfl]
+  · rw [if_neg e]
+    by_cases hm : k' ∈ ArtTree.keys t
+    · rw [if_pos ((h2 k').mpr (Or.inr hm)), if_pos hm]
+    · rw [if_neg (fun hh => by rcases (h2 k').mp hh with e' | e'; exact e e'; exact hm e'), if_neg hm]
+
+/-- how the two radix-tree layers fit: the children of any node of a well-formed tree, put into a node4 one `addChild` at a
+    time (in any order — here the stored one), give a container in which `findChild` is the lookup among those children,
+    whose kind is the one the structure dump prints (`kindFor` of their number), and whose iteration order is ascending -/
+theorem art_kids_as_container (q : Bytes) (kids : ArtTree.Kids) (h : ArtTree.WFK q kids) :
+    (∀ c, (ArtNode.build kids.toList).findChild c = ArtNode.assoc c kids.toList) ∧
+    (ArtNode.build kids.toList).num = kids.length ∧
+    (ArtNode.build kids.toList).kind = ArtNode.kindFor kids.length ∧
+    (ArtNode.build kids.toList).children.Pairwise (fun a b => a.1 < b.1) := by
+  obtain ⟨h1, h2, h3, _, h5⟩ := artnode_insert_lookup kids.toList (ArtTree.bytes_nodup q kids h)
+  rw [ArtTree.toList_length] at h2 h3
+  exact ⟨h1, h2, h3, h5⟩
+
+/-- keys that are prefixes of each other, the empty key and a 30-byte common prefix, computed on the model -/
+example :
+    (ArtTree.keys (ArtTree.insertAll [List.replicate 30 7 ++ [1], [], List.replicate 30 7, List.replicate 25 7 ++ [9], [7]])) =
+      [[], [7], List.replicate 30 7, List.replicate 30 7 ++ [1], List.replicate 25 7 ++ [9]] := by
+  decide
+
 /-! ## non-vacuity of the hypotheses -/
 
 example : (ArtNode.Node.empty : ArtNode.Node Nat).WF := ⟨by simp [ArtNode.SortedK], rfl, by simp [ArtNode.cap4]⟩
 example : ([(5, 1), (3, 2), (9, 3)] : List (UInt8 × Nat)).map (·.1) |>.Nodup := by decide
+example : ArtTree.WFT [] ArtTree.Tree.empty := ArtTree.wf_empty
 example : Inv VLog.init := inv_init
 example : Inv (VLog.init.run [.set [1] [2] [], .staging, .set [1] [3, 4] [4], .checkpoint]).1 :=
   (run_refines inv_init _).2
